@@ -240,7 +240,7 @@ def run(ck, P):
     ok = bool(reh) and bool(finds)
     if ok:
         first_find = finds[0]
-        load = [e for e in reh if has(X.facts(hp, e), "(m->table_size > hashmap_table_min_size_calc(m->length))", False)]
+        load = [e for e in reh if has(X.facts(hp, e), "(m->table_size > (m->length + (m->length / 3)))", False)]
         ok = bool(load) and all(hp.ev_dominates(e, first_find) or e.block.id in hp.dominators()[first_find.block.id] or
                                 _precedes(hp, e, first_find) for e in load)
     ck.ob("C05.5-GROW-PROBE", hp.site("rehash<find"), ok, "load-factor rehash precedes the slot search: %s" % ok)
